@@ -38,6 +38,7 @@ func init() {
 type c18FS struct {
 	m     *MemFS
 	walks int
+	extra int // budget added for the size of the input (c18Extra)
 }
 
 type c18Budget struct{}
@@ -48,7 +49,7 @@ const c18WalkBudget = 3000
 
 func (f *c18FS) Walk(ctx context.Context, target string, fn gofs.WalkDirFunc) error {
 	f.walks++
-	if f.walks > c18WalkBudget {
+	if f.walks > c18WalkBudget+f.extra {
 		panic(c18Budget{})
 	}
 	return f.m.Walk(ctx, target, func(p string, d gofs.DirEntry, err error) (ret error) {
@@ -67,13 +68,14 @@ func (f *c18FS) Open(p string) (io.ReadCloser, error) { return f.m.Open(p) }
 type c18Budgeted struct {
 	fs    fsutil.FS
 	walks int
+	extra int
 }
 
 const c18DiskWalkBudget = 3000
 
 func (f *c18Budgeted) Walk(ctx context.Context, target string, fn gofs.WalkDirFunc) error {
 	f.walks++
-	if f.walks > c18DiskWalkBudget {
+	if f.walks > c18DiskWalkBudget+f.extra {
 		panic(c18Budget{})
 	}
 	return f.fs.Walk(ctx, target, fn)
@@ -129,6 +131,25 @@ func errClass18(err error) string {
 	return "other"
 }
 
+// c18Extra: walks granted on top of the constant budget, proportional to the size of the case:
+// a legitimate resolution walks a few times per request component and per link met, and a tree
+// has at most as many links as entries.
+func c18Extra(roots []*MNode, reqs []string) int {
+	n := 0
+	var count func(l []*MNode)
+	count = func(l []*MNode) {
+		for _, k := range l {
+			n++
+			count(k.Kids)
+		}
+	}
+	count(roots)
+	for _, q := range reqs {
+		n += 1 + strings.Count(q, "/")
+	}
+	return 40 * n
+}
+
 func c18Case(in Sx) ([]*MNode, []string) {
 	roots := SxView(in.L[0])
 	var reqs []string
@@ -140,7 +161,7 @@ func c18Case(in Sx) ([]*MNode, []string) {
 
 func run1801(in Sx) Sx {
 	roots, reqs := c18Case(in)
-	return c18Follow(&c18FS{m: &MemFS{Roots: roots}}, reqs)
+	return c18Follow(&c18FS{m: &MemFS{Roots: roots}, extra: c18Extra(roots, reqs)}, reqs)
 }
 
 // the same view on disk, resolved through the real NewFS
@@ -155,7 +176,7 @@ func run1804(in Sx) Sx {
 	if err != nil {
 		return L(N(1), S("newfs"))
 	}
-	return c18Follow(&c18Budgeted{fs: fs}, reqs)
+	return c18Follow(&c18Budgeted{fs: fs, extra: c18Extra(roots, reqs)}, reqs)
 }
 
 func run1802(in Sx) Sx {
@@ -192,7 +213,7 @@ func run1805(in Sx) (out Sx) {
 				done <- L(N(3), S(fmt.Sprint(r)))
 			}
 		}()
-		ffs, err := fsutil.NewFilterFS(&c18FS{m: &MemFS{Roots: roots}}, &fsutil.FilterOpt{FollowPaths: reqs})
+		ffs, err := fsutil.NewFilterFS(&c18FS{m: &MemFS{Roots: roots}, extra: c18Extra(roots, reqs)}, &fsutil.FilterOpt{FollowPaths: reqs})
 		if err != nil {
 			done <- L(N(1), S("newfilterfs"))
 			return
@@ -210,7 +231,7 @@ func run1805(in Sx) (out Sx) {
 			return
 		}
 		// what FollowLinks itself answers for the same requests (the include set that was merged)
-		fl := c18Follow(&c18FS{m: &MemFS{Roots: roots}}, reqs)
+		fl := c18Follow(&c18FS{m: &MemFS{Roots: roots}, extra: c18Extra(roots, reqs)}, reqs)
 		done <- L(N(0), L(paths...), fl)
 	}()
 	select {
@@ -283,8 +304,8 @@ func c18ReadTree(dir string) ([]*MNode, error) {
 
 // c18NewFilterFS: NewFilterFS(fs, FollowPaths) with the resolver under the walk budget; (nil, nil)
 // when the budget was exhausted.  The budget counter is reset for the walk of the transfer.
-func c18NewFilterFS(fs fsutil.FS, reqs []string) (res fsutil.FS, err error) {
-	b := &c18Budgeted{fs: fs}
+func c18NewFilterFS(fs fsutil.FS, reqs []string, extra int) (res fsutil.FS, err error) {
+	b := &c18Budgeted{fs: fs, extra: extra}
 	defer func() {
 		if r := recover(); r != nil {
 			if _, ok := r.(c18Budget); ok {
@@ -332,7 +353,7 @@ func run1806(in Sx) (out Sx) {
 		return L(N(1), S("newfs"))
 	}
 	// FollowLinks runs inside NewFilterFS: under the walk budget; the transfer walks the plain FS
-	ffs, err := c18NewFilterFS(fs, reqs)
+	ffs, err := c18NewFilterFS(fs, reqs, c18Extra(roots, reqs))
 	if err != nil {
 		return L(N(1), S("newfilterfs"))
 	}
@@ -382,18 +403,55 @@ var c18DotNames = func() []string {
 	return out
 }()
 
+// c18ForeignNames: a letter or digits, ':' and/or '\\' in every position of a name
+var c18ForeignNames = func() []string {
+	out := []string{":", "::", "con", "nul", "\\\\srv"}
+	for _, a := range []string{"c", "C", "10", "a-b", ""} {
+		for _, sep := range []string{":", ":\\", "\\"} {
+			for _, b := range []string{"", "x", "30:00", "d"} {
+				if n := a + sep + b; n != ":" && n != "\\" {
+					out = append(out, n)
+				}
+			}
+		}
+	}
+	return out
+}()
+
 // c18Pool: the name pool of a case. dots: about half of the picks are dot-prefixed names.
 func c18Pool(r *Rng, rich, dots bool) []string {
 	names := c18Names[:9]
 	if rich {
 		names = c18Names
 	}
-	if !dots {
-		return names
+	out := names
+	if dots {
+		out = append([]string{}, names[:5]...)
+		for i := 0; i < 5; i++ {
+			out = append(out, Pick(r, c18DotNames))
+		}
 	}
-	out := append([]string{}, names[:5]...)
-	for i := 0; i < 5; i++ {
-		out = append(out, Pick(r, c18DotNames))
+	// names with bytes that are special on OTHER platforms and must be ordinary here: ':' (volume
+	// separator: "c:", "C:x", a time stamp), '\\' (separator), drive-like and device-like names
+	if r.Chance(35) {
+		out = append([]string{}, out...)
+		keep := len(out) / 2
+		if keep < 3 {
+			keep = len(out)
+		}
+		out = out[:keep]
+		for i := 3 + r.Intn(3); i > 0; i-- {
+			out = append(out, Pick(r, c18ForeignNames))
+		}
+	}
+	// names that are byte-prefixes of one another WITHOUT a separator at the boundary (lib / lib64,
+	// a / a. / a-): "inside" must mean "below", not "starts with"
+	if r.Chance(50) {
+		out = append([]string{}, out...)
+		for i := 1 + r.Intn(2); i > 0; i-- {
+			b := Pick(r, out)
+			out = append(out, b+Pick(r, []string{"64", ".", "-", "0", "b", "!", "~x"}))
+		}
 	}
 	return out
 }
@@ -719,6 +777,105 @@ func c18AddAliases(r *Rng, roots *[]*MNode, ents []c18Entry, names []string) ([]
 	return out, reqs
 }
 
+type c18Big struct {
+	roots     []*MNode
+	reqs      []string
+	cls       string
+	e2e, disk bool
+}
+
+func c18Lnk(name, target string) *MNode {
+	return &MNode{Name: name, Stat: &types.Stat{Mode: uint32(os.ModeSymlink | 0777), Linkname: target, Size: int64(len(target))}}
+}
+
+func c18File(name string) *MNode {
+	return &MNode{Name: name, Content: []byte(name), Stat: &types.Stat{Mode: 0644, Size: int64(len(name))}}
+}
+
+// c18BigCases: reps rounds over the size ladder.  Sizes are perturbed by the PRNG so that the
+// counts are not the same in every run; every threshold is approached from both sides.
+func c18BigCases(r *Rng, reps int) []c18Big {
+	var out []c18Big
+	near := func(t int) int { return t - 2 + r.Intn(5) } // t-2 .. t+2
+	for rep := 0; rep < reps; rep++ {
+		// many requests, each an ordinary one-hop link to one of a few files, below a directory or at the root
+		for _, t := range []int{40, 255, 256, 300 + r.Intn(100), 1000 + 24*rep} {
+			n := near(t)
+			dir := &MNode{Name: "d", Stat: &types.Stat{Mode: uint32(os.ModeDir | 0755)}}
+			atRoot := r.Bool()
+			var roots []*MNode
+			var reqs []string
+			nfiles := 1 + r.Intn(3)
+			for i := 0; i < nfiles; i++ {
+				f := c18File(fmt.Sprintf("t%d", i))
+				if atRoot {
+					roots = append(roots, f)
+				} else {
+					dir.Kids = append(dir.Kids, f)
+				}
+			}
+			for i := 0; i < n; i++ {
+				name := fmt.Sprintf("l%04d", i)
+				l := c18Lnk(name, fmt.Sprintf("t%d", i%nfiles))
+				if atRoot {
+					roots = append(roots, l)
+					reqs = append(reqs, name)
+				} else {
+					dir.Kids = append(dir.Kids, l)
+					reqs = append(reqs, "d/"+name)
+				}
+			}
+			if !atRoot {
+				roots = append(roots, dir)
+			}
+			for a := len(reqs) - 1; a > 0; a-- {
+				b := r.Intn(a + 1)
+				reqs[a], reqs[b] = reqs[b], reqs[a]
+			}
+			root := &MNode{Kids: roots}
+			sortKids(root)
+			out = append(out, c18Big{root.Kids, reqs, fmt.Sprintf("fanout-%d", t), t <= 400, t == 256})
+		}
+		// one long chain c0 -> c1 -> ... -> file, requested at its head (and once in the middle)
+		for _, t := range []int{40, 100 + r.Intn(100), 255, 256, 300} {
+			k := near(t)
+			roots := []*MNode{c18File("end")}
+			for i := 0; i < k; i++ {
+				tgt := fmt.Sprintf("c%04d", i+1)
+				if i == k-1 {
+					tgt = "end"
+				}
+				if r.Chance(30) {
+					tgt = "/" + tgt
+				}
+				roots = append(roots, c18Lnk(fmt.Sprintf("c%04d", i), tgt))
+			}
+			root := &MNode{Kids: roots}
+			sortKids(root)
+			reqs := []string{"c0000"}
+			if r.Bool() {
+				reqs = append(reqs, fmt.Sprintf("c%04d", k/2))
+			}
+			out = append(out, c18Big{root.Kids, reqs, fmt.Sprintf("chain-%d", t), true, false})
+		}
+		// a wildcard over many links whose targets are links again
+		for _, t := range []int{128, 255, 300} {
+			n := near(t)
+			dir := &MNode{Name: "d", Stat: &types.Stat{Mode: uint32(os.ModeDir | 0755)}}
+			roots := []*MNode{c18File("end")}
+			for i := 0; i < n; i++ {
+				dir.Kids = append(dir.Kids, c18Lnk(fmt.Sprintf("l%04d", i), fmt.Sprintf("../m%04d", i)))
+				roots = append(roots, c18Lnk(fmt.Sprintf("m%04d", i), "end"))
+			}
+			roots = append(roots, dir)
+			root := &MNode{Kids: roots}
+			sortKids(root)
+			out = append(out, c18Big{root.Kids, []string{"d/l*"}, fmt.Sprintf("wild-%d", t), true, false})
+		}
+	}
+	return out
+}
+
 func c18Input(roots []*MNode, reqs []string) Sx {
 	rs := make([]Sx, len(reqs))
 	for i, q := range reqs {
@@ -820,6 +977,21 @@ func genC18(g *Gen) {
 		}
 		in := L(ViewSx(roots), c18Input(roots, reqs).L[1], L(al...))
 		g.Emit(0x1806, in, len(aliases) > 0, fmt.Sprintf("transfer/%s/alias%d", cls, minInt(len(aliases), 2)))
+	}
+	// (c3) LARGE inputs: counts around the thresholds a hidden per-call limit would have (40 = the
+	// kernel's, 255/256 = EvalSymlinks', 1000/1024): many requests that are each a one-hop link,
+	// long chains, a wildcard over many links whose targets are links again
+	for _, c := range c18BigCases(r, g.Vol(1, 4)) {
+		in := c18Input(c.roots, c.reqs)
+		out := run1801(in)
+		oc := c18Outcome(out)
+		g.EmitWith(0x1801, in, out, true, "big/"+c.cls+"/"+oc)
+		if c.e2e {
+			g.Emit(0x1805, in, true, "big-filter/"+c.cls)
+		}
+		if c.disk {
+			g.Emit(0x1804, in, true, "big-disk/"+c.cls)
+		}
 	}
 	// (d) filepath.Match against go_match
 	pat := []string{"a", "b", "*", "?", "[", "]", "-", "^", "\\", "é", "\x80", "\xe6", ".", "c", "日", "a-c", "[a-c]", "[^b]", "**"}
